@@ -61,6 +61,33 @@ def run(repo, chk):
     r1_r2(repo, chk)
     r3(repo, chk, prog)
     r4(repo, chk)
+    r5(repo, chk)
+
+
+def r5(repo, chk):
+    """connection IDs: the peer is accused of exceeding active_connection_id_limit only when it did
+    (the obligations are those of C18-R2 / R3 that concern the count compared with the limit)"""
+    from . import c18
+
+    chk.rule("R5", "NEW_CONNECTION_ID: 1 + stored IDs > advertised active_connection_id_limit raises CONNECTION_ID_LIMIT_ERROR after acceptance; an ID is stored only for a sequence number never seen before and not below retire-prior-to, and the set of seen numbers only grows (a duplicate of a retired ID is not counted again)")
+
+    class Sub:
+        n = 0
+
+        def ob(self, rule, key, ok, msg="", loc="", detail=None):
+            if any(h in key for h in ("CONNECTION_ID_LIMIT_ERROR", "limit test follows", "limit enforced is the advertised", "advertised limit does not change", "never seen", "sequence number is remembered", "seen sequence numbers only grows", "retire-prior-to only ever increases")):
+                Sub.n += 1
+                return chk.ob("R5", key, ok, msg, loc, detail)
+            return ok
+
+        def count(self, *a):
+            pass
+
+    sub = Sub()
+    c18.r2(repo, sub)
+    c18.r3(repo, sub)
+    if Sub.n < 6:
+        raise AnalysisError(f"C07-R5: only {Sub.n} of the connection-ID accounting obligations were generated")
 
 
 def _raises_with(fn: Fn, code: str):
